@@ -119,7 +119,7 @@ func genC32(t *rapid.T) c32Case {
 		c.Threshold = "high"
 	}
 	c.Zstd = rapid.IntRange(0, 9).Draw(t, "zstd") == 9
-	c.Shape = []string{"clean", "corrupt", "faults", "faults", "faults"}[rapid.IntRange(0, 4).Draw(t, "shape")]
+	c.Shape = []string{"clean", "corrupt", "faults", "faults", "faults", "hedgefaults"}[rapid.IntRange(0, 5).Draw(t, "shape")]
 	if n == 1 && c.Shape == "clean" && rapid.Bool().Draw(t, "single-chunk-faults") {
 		c.Shape = "faults"
 	}
@@ -143,6 +143,24 @@ func genC32(t *rapid.T) c32Case {
 		}
 		k := rapid.IntRange(0, n-1).Draw(t, "corrupt-chunk")
 		c.Chunks[k].First.Kind = []string{"short", "long", "whole200"}[rapid.IntRange(0, 2).Draw(t, "corrupt-kind")]
+	case "hedgefaults":
+		// every original request is answered correctly (some slowly, so that
+		// duplicates are launched); only duplicates go wrong
+		if c.Multiplier == 0 {
+			c.Multiplier = 0.001
+		}
+		if c.MaxHedges == 0 {
+			c.MaxHedges = 4
+		}
+		bad := []string{"500", "503", "reset", "cut", "short", "long", "whole200", "ok"}
+		for i := 0; i < n; i++ {
+			c.Chunks = append(c.Chunks, c32Chunk{First: genC32Answer(t, []string{"ok"}), Hedge: genC32Answer(t, bad)})
+		}
+		if n >= 3 {
+			k := rapid.IntRange(0, n-1).Draw(t, "slow-chunk")
+			c.Chunks[k].First.LatencyMs += 120
+			c.Chunks[k].Hedge.Kind = bad[rapid.IntRange(0, 6).Draw(t, "slow-hedge-kind")]
+		}
 	case "faults":
 		for i := 0; i < n; i++ {
 			c.Chunks = append(c.Chunks, c32Chunk{First: genC32Answer(t, all), Hedge: genC32Answer(t, all)})
@@ -712,7 +730,23 @@ func runC32(c c32Case) (out lib.Outcome) {
 		return "resource"
 	}
 
-	k1 := judge(c32Fetch(c, c.Multiplier), "fetch")
+	res1 := c32Fetch(c, c.Multiplier)
+	k1 := judge(res1, "fetch")
+	// every original request is answered correctly and only duplicates fail:
+	// without hedging this script yields the resource, so with it it must too
+	firstsOK := true
+	for i := 0; i < n && i < len(c.Chunks); i++ {
+		if c.Chunks[i].First.Kind != "ok" {
+			firstsOK = false
+		}
+	}
+	if firstsOK && faulty > 0 && parallelPath {
+		out.Label("only-hedges-faulty")
+		if k1 == "error" && decodable {
+			out.Violate("C32/failed-hedge-fails-fetch", "every original range request was answered correctly and only hedged duplicates failed, yet the fetch returned an error (%v); size=%d chunk=%d parallel=%d multiplier=%g script=%s requests=%v",
+				res1.err, c.Size, c.ChunkSize, c.MaxParallel, c.Multiplier, c32Script(c, n), res1.requests)
+		}
+	}
 	if faulty == 0 && parallelPath && (k1 == "resource" || k1 == "error") {
 		// no fault in the script: hedging on/off must not change the kind of result
 		other := 0.001
